@@ -41,6 +41,33 @@ def getNextAvailableStreamId : CM Int := do
   let next := if c.highestOut == 0 then (if c.cfg.client then 1 else 2) else c.highestOut + 2
   if next > HIGHEST_ALLOWED_STREAM_ID then raise (mkExc .NoAvailableStreamIDError) else pure next
 
+/-- `_add_frame_priority` on the first frame of the block, when priority arguments were given -/
+def addPriority (priorityPresent : Bool) (frames : List Frame) (pw pd : Option Int) (pe : Option Bool) : CM (List Frame) :=
+  if priorityPresent then
+    match frames with
+    | .headers s b es eh pad _ :: rest => do
+      let p ← liftExcept (framePriority s pw pd pe)
+      pure (Frame.headers s b es eh pad (some p) :: rest)
+    | _ => raise (.py .IndexError)
+  else pure frames
+
+/-- `send_headers` once the call is admitted (`c0` is the state the call started in) -/
+def sendHeadersTail (c0 : Conn) (sid : Int) (headers : List Header) (endStream : Bool)
+    (pw pd : Option Int) (pe : Option Bool) : CM Unit := do
+  let priorityPresent := pw.isSome || pd.isSome || pe.isSome
+  connInput .SEND_HEADERS
+  let opening := !hasStream c0 sid
+  getOrCreateStream sid c0.cfg.client
+  let frames ← tryCatch (withStreamHp sid (Stream.sendHeaders c0.cfg headers endStream priorityPresent))
+    (fun _ => true)
+    (fun e => do
+      -- a refused request leaves no idle stream behind: `del self.streams[stream_id]`, highest id restored
+      if opening then
+        modifyS (fun c' => { c' with streams := c'.streams.filter (fun s => s.1 != sid), highestOut := c0.highestOut })
+      raise e)
+  let frames ← addPriority priorityPresent frames pw pd pe
+  prepareForSending frames
+
 def sendHeaders (sid : Int) (headers : List Header) (endStream : Bool)
     (pw pd : Option Int) (pe : Option Bool) : CM Unit := do
   let c ← getS
@@ -52,24 +79,7 @@ def sendHeaders (sid : Int) (headers : List Header) (endStream : Bool)
     let maxOpen := c.remoteSettings.maxConcurrentStreams
     let n ← openOutboundStreams
     if n + 1 > maxOpen then raise (mkExc .TooManyStreamsError) else pure ()
-  connInput .SEND_HEADERS
-  let opening := !hasStream c sid
-  getOrCreateStream sid c.cfg.client
-  let frames ← tryCatch (withStreamHp sid (Stream.sendHeaders c.cfg headers endStream priorityPresent))
-    (fun _ => true)
-    (fun e => do
-      -- a refused request leaves no idle stream behind: `del self.streams[stream_id]`, highest id restored
-      if opening then
-        modifyS (fun c' => { c' with streams := c'.streams.filter (fun s => s.1 != sid), highestOut := c.highestOut })
-      raise e)
-  let frames ← if priorityPresent then
-      match frames with
-      | .headers s b es eh pad _ :: rest => do
-        let p ← liftExcept (framePriority s pw pd pe)
-        pure (Frame.headers s b es eh pad (some p) :: rest)
-      | _ => raise (.py .IndexError)
-    else pure frames
-  prepareForSending frames
+  sendHeadersTail c sid headers endStream pw pd pe
 
 def localFlowControlWindow (sid : Int) : CM Int := do
   getStreamById sid
